@@ -80,6 +80,30 @@ class Engine:
                   "positions." % GROUP)
         return r
 
+    def extra_evidence(self, prop, tier, total):
+        if prop != "C14" or tier != "thorough":
+            return None
+        pr = total["probes"]
+        g = pr.get("enumeration_groups_started", 0)
+        return {"stop_enumeration": {
+            "group_size_runs": GROUP,
+            "groups_started": g,
+            "groups_complete": total.get("chunks_complete", 0),
+            "stop_positions_in_started_groups":
+                pr.get("stop_positions_in_started_groups", 0),
+            "positions_taken_at_least_once":
+                pr.get("stop_positions_enumerated_first_pass", 0),
+            "mean_schedules_per_position": round(
+                pr.get("stop_position_runs", 0)
+                / max(1, pr.get("stop_positions_enumerated_first_pass", 1)),
+                2),
+            "note": "within a complete group every trigger position of the "
+                    "group's base scenario is taken (position = slot mod "
+                    "#positions, slot = run_index mod group size), each "
+                    "under group_size/#positions independently seeded "
+                    "schedules",
+        }}
+
     def components(self):
         return {
             "real": ["auditok.workers (Worker, TokenizerWorker, "
@@ -171,7 +195,7 @@ class Engine:
                 pi = T.force(len(positions), j % len(positions))
                 kind, jj = positions[pi]
                 stop = {"kind": kind, "j": jj, "npos": len(positions),
-                        "pos": pi}
+                        "pos": pi, "slot": j}
             else:
                 kind = T.choice(STOP_KINDS)
                 stop = {"kind": kind, "j": 1 + T.draw(n + 3)}
@@ -412,6 +436,15 @@ class Engine:
             out["faults"]["stop:" + sc["stop"]["kind"]] = 1
             if res.get("_stop_before_end"):
                 p["stop_before_natural_end"] = 1
+            st = sc["stop"]
+            if "slot" in st:
+                # enumeration bookkeeping (thorough tier)
+                if st["slot"] < st["npos"]:
+                    p["stop_positions_enumerated_first_pass"] = 1
+                p["stop_position_runs"] = 1
+                if st["slot"] == 0:
+                    p["enumeration_groups_started"] = 1
+                    p["stop_positions_in_started_groups"] = st["npos"]
         out["nontrivial"] = bool(nd >= 1 and c.get("switch_inflight", 0) >= 1)
         out["shape"] = "%s/obs%d/%s" % (
             sim.policy, len(sc["observers"]),
